@@ -167,6 +167,18 @@ def load_registry():
 
 # ---------------------------------------------------------------- overlay
 
+TGT_SUFFIX = [""]
+
+
+def tgt_dir(name):
+    """Build output of configuration `name`.  cargo names the artifacts of a workspace member after
+    its workspace-relative path, which is the same in every overlay, so two runs over DIFFERENT
+    source trees must never share a target directory (measured: a concurrent run on a seeded tree
+    made an unrelated harness fail).  Runs on another tree (VERIF_REPO / VERIF_TAG) and runs that
+    found their overlay name taken by a live run get their own, removed when they end."""
+    return os.path.join(BUILD, "tgt-" + name + TGT_SUFFIX[0])
+
+
 def make_overlay(tag):
     """Copy /repo's current working tree (crate sources only) and add the harness modules."""
     # a stable path per (property, tier) keeps cargo's fingerprint stable, so that repeated runs
@@ -179,8 +191,11 @@ def make_overlay(tag):
         os.kill(other, 0)
         root = os.path.join(SCRATCH_ROOT, "%s-%d" % (tag, os.getpid()))
         pidfile = root + ".pid"
+        TGT_SUFFIX[0] = "-tmp%d" % os.getpid()
     except (OSError, ValueError):
         pass
+    if not TGT_SUFFIX[0] and (os.environ.get("VERIF_TAG") or os.path.abspath(REPO) != "/repo"):
+        TGT_SUFFIX[0] = "-tmp%d" % os.getpid()
     os.makedirs(SCRATCH_ROOT, exist_ok=True)
     with open(pidfile, "w") as f:
         f.write(str(os.getpid()))
@@ -215,6 +230,17 @@ def make_overlay(tag):
             f.write('\n#[cfg(kani)]\n#[path = "%s"]\nmod %s;\n' % (relpath, modname))
     check_simd_per_arch_neutral(dst_crate)
     return root, dst_crate
+
+
+def remove_tmp_targets():
+    if TGT_SUFFIX[0]:
+        for d in os.listdir(BUILD):
+            if d.startswith("tgt-") and (d.endswith(TGT_SUFFIX[0]) or d.endswith(TGT_SUFFIX[0] + ".lock")):
+                pth = os.path.join(BUILD, d)
+                if os.path.isdir(pth):
+                    shutil.rmtree(pth, ignore_errors=True)
+                else:
+                    os.remove(pth)
 
 
 def check_simd_per_arch_neutral(crate):
@@ -368,7 +394,7 @@ def parse_kani_output(text, fulls):
 # ---------------------------------------------------------------- running
 
 def run_config(crate_dir, cfg, harnesses, tier, logdir, jobs, extra=None):
-    tgt = os.path.join(BUILD, "tgt-" + cfg)
+    tgt = tgt_dir(cfg)
     os.makedirs(tgt, exist_ok=True)
     hto = max(h.timeout for h in harnesses)
     cmd = ["cargo", "kani", "--target-dir", tgt, "--no-default-features",
@@ -381,7 +407,12 @@ def run_config(crate_dir, cfg, harnesses, tier, logdir, jobs, extra=None):
         cmd += extra
     logfile = os.path.join(logdir, "kani-%s.log" % cfg)
     waves = (len(harnesses) + max(2, jobs) - 1) // max(2, jobs)
-    rc, to, wall = run_cmd(cmd, crate_dir, 240 + hto * waves + 60, logfile)
+    # one run at a time per target directory: a second run (of another property, same tree)
+    # would rebuild the same artifact names while CBMC of the first still reads them
+    import fcntl
+    with open(tgt + ".lock", "w") as lk:
+        fcntl.flock(lk, fcntl.LOCK_EX)
+        rc, to, wall = run_cmd(cmd, crate_dir, 240 + hto * waves + 60, logfile)
     text = open(logfile, errors="replace").read()
     res = parse_kani_output(text, [h.full for h in harnesses])
     build_failed = ("could not compile" in text) or ("error: Failed to execute cargo" in text) \
@@ -444,7 +475,7 @@ def extract_playback_tests(text, hname):
 def native_replay(crate_dir, cfg, h, logdir):
     """Ask Kani for concrete values of the failing check, then run the same harness body
     natively (real code, no stubs) with those values.  Returns (reproduced, info)."""
-    tgt = os.path.join(BUILD, "tgt-" + cfg)
+    tgt = tgt_dir(cfg)
     cmd = ["cargo", "kani", "--target-dir", tgt, "--no-default-features",
            "--features", features_of(cfg), "-Z", "stubbing", "-Z", "unstable-options",
            "-Z", "concrete-playback", "--concrete-playback=print",
@@ -743,6 +774,7 @@ def cmd_check(args):
             os.remove(root + ".pid")
         except OSError:
             pass
+        remove_tmp_targets()
     return exit_code
 
 
@@ -797,10 +829,10 @@ def run_mir_smt(prop, tier, crate_dir, logdir):
     t0 = time.time()
     to = int(os.environ.get("VERIF_SMT_TIMEOUT", "120"))
     if kind == "qratio":
-        r = mirq.run_check(crate_dir, os.path.join(BUILD, "tgt-mir"), logdir, timeout=to)
+        r = mirq.run_check(crate_dir, tgt_dir("mir"), logdir, timeout=to)
         hname = "mir_smt::qratio_full_width"
     else:
-        r = mirq.run_check_len(crate_dir, os.path.join(BUILD, "tgt-mir"), logdir, timeout=to)
+        r = mirq.run_check_len(crate_dir, tgt_dir("mir"), logdir, timeout=to)
         hname = "mir_smt::update_len_full_width"
     entry = {"harness": hname, "config": "MIR", "features": "std,easy-functions",
              "verdict": {"pass": "pass", "fail": "fail", "undecided": "undecided"}[r["verdict"]],
@@ -862,7 +894,7 @@ def run_extra_builds(prop, tier, crate_dir, logdir):
     """Build facts (not solver queries): C18's `still compiles without std and alloc'."""
     out = []
     if prop == "C18":
-        tgt = os.path.join(BUILD, "tgt-nostd")
+        tgt = tgt_dir("nostd")
         cmd = ["cargo", "build", "--offline", "--lib", "--no-default-features",
                "--target-dir", tgt]
         lf = os.path.join(logdir, "build-nostd.log")
